@@ -40,7 +40,10 @@ def located_error(
     try:
         message = str(original_error.message)  # type: ignore
     except AttributeError:
-        message = str(original_error)
+        try:
+            message = str(original_error)
+        except Exception:  # noqa: BLE001 (broken __str__ must not escape execution)
+            message = f"<unprintable {original_error.__class__.__name__} error>"
     try:
         source = original_error.source  # type: ignore
         if not is_source(source):
